@@ -20,7 +20,8 @@ enum Ev {
     Pub0(usize),
     /// final / first acknowledgement for the i-th retained entry (PUBACK, SUBACK, PUBREC success)
     Ack(usize),
-    /// PUBREC with a failure code for the i-th retained entry (QoS 2 only)
+    /// acknowledgement with a failure code for the i-th retained entry (PUBACK / PUBREC 0x80, SUBACK / UNSUBACK
+    /// with a refused filter)
     FailRec(usize),
     /// PUBCOMP for the j-th exchange waiting for it
     Comp(usize),
@@ -166,7 +167,7 @@ impl C17 {
         for i in 0..max_live {
             events.push(Ev::Ack(i));
         }
-        if fail_rec && kinds.contains(&2) {
+        if fail_rec {
             for i in 0..max_live {
                 events.push(Ev::FailRec(i));
             }
@@ -399,7 +400,7 @@ impl Model for C17 {
                             }
                             Ev::Ack(i) | Ev::FailRec(i) => {
                                 let fail = matches!(ev, Ev::FailRec(_));
-                                if i >= retained.len() || (fail && retained[i].kind != 2) {
+                                if i >= retained.len() {
                                     if last {
                                         applicable = false;
                                     }
@@ -409,10 +410,13 @@ impl Model for C17 {
                                 let (hi, lo) = ((l.pid >> 8) as u8, l.pid as u8);
                                 let before = bench.written(id).len();
                                 match l.kind {
+                                    1 if fail => bench.push(id, &[0x40, 0x03, hi, lo, 0x80]),
                                     1 => bench.push(id, &[0x40, 0x02, hi, lo]),
                                     2 if fail => bench.push(id, &[0x50, 0x03, hi, lo, 0x80]),
                                     2 => bench.push(id, &[0x50, 0x02, hi, lo]),
+                                    4 if fail => bench.push(id, &[0xB0, 0x04, hi, lo, 0x00, 0x80]),
                                     4 => bench.push(id, &[0xB0, 0x04, hi, lo, 0x00, 0x00]),
+                                    _ if fail => bench.push(id, &[0x90, 0x04, hi, lo, 0x00, 0x80]),
                                     _ => bench.push(id, &[0x90, 0x04, hi, lo, 0x00, 0x00]),
                                 }
                                 let e = poll_until_blocked(bench, &mut conn, id);
@@ -538,7 +542,7 @@ pub fn models(tier: Tier) -> Vec<C17> {
         // a payload that fills the arena on its own
         C17::new("C17-arena-64-filling-payload", 64, &[1, 54], &[1, 2], true, 3, true, 0),
         // roomy arena, so that the eight in-flight slots (not the bytes) are the limit, with all request kinds
-        C17::new("C17-arena-200-slot-limited-mixed-kinds", 200, &[0], &[1, 2, 3, 4], false, 3, false, 0),
+        C17::new("C17-arena-200-slot-limited-mixed-kinds", 200, &[0], &[1, 2, 3, 4], false, 3, true, 0),
         // a QoS 0 publish whose fixed header is longer than that of the retained packets
         C17::new("C17-arena-400-long-header-scratch", 400, &[1, 140], &[1], true, 2, false, 0),
     ];
